@@ -216,3 +216,7 @@ fn c08_notify_wait_spurious_return_consumes_nothing() {
     reach!("c08_notify_wait_spurious");
 }
 }
+
+pub(crate) fn any_notify_state_no_access() -> State {
+    any_notify_state()
+}
